@@ -16,13 +16,12 @@ FACT_GROUPS = ['F11', 'F12']
 ALLOWED_AXIOMS = []
 TRUSTED_BASE = [
     "Coq 8.16.1 kernel; Print Assumptions: closed under the global context",
-    "Model/Normalize.v (setter_loop: pop(0) work-list with re-queue on KeyError and seen-set) tied to __normalize_default_fields by the differential run; "
-    "hash(tuple(pending)) is taken injective (assumption A-hash)",
+    "Model/Normalize.v (setter_loop: pop(0) work-list with re-queue on KeyError and seen-set) tied to __normalize_default_fields by the differential run and "
+    "the F12 shape tokens (the seen-set holds the pending tuples themselves since be0af7a)",
     "setters are the pool functions rd_/rdx_/rdk_<letters> (read fields, then return / raise ValueError / raise KeyError)",
 ]
 ASSUMPTIONS = [
     "fields already present hold non-None values (a present, non-nullable None that also has a setter is read by other setters before it is replaced: order-dependent, outside the stated domain)",
-    "A-hash: no collision of Python's hash on pending-field tuples",
 ]
 
 CALLS = [0]
@@ -35,6 +34,23 @@ def counting_setter(name):
         CALLS[0] += 1
         return f(doc)
     s._pool_name = name
+    return s
+
+
+def spec_setter(spec):
+    """the setter of a spec over ANY field names (the pool's named setters read one-letter names only)"""
+    kind, reads = spec
+
+    def s(doc):
+        CALLS[0] += 1
+        vals = [doc[r] for r in reads]
+        if kind == 'rdx':
+            raise ValueError("setter failed")
+        if kind == 'rdk':
+            raise KeyError("setter raised KeyError itself")
+        if kind == 'rdr':
+            raise NotImplementedError("setter not implemented")
+        return vals
     return s
 
 
@@ -62,10 +78,13 @@ def expected(fields, present):
 
 def run_graph(order, fields, present, use_names, wrap=None):
     schema = {}
+    letters = all(isinstance(f, str) and len(f) == 1 for f in fields)
     for f in order:
         spec = fields[f]
         if spec is None:
             schema[f] = {}
+        elif not letters:
+            schema[f] = {'default_setter': spec_setter(spec)}
         else:
             name = "%s_%s" % (spec[0], "".join(spec[1]))
             schema[f] = {'default_setter': name if (use_names and name in pool.SETTER_NAMES) else counting_setter(name)}
@@ -151,8 +170,8 @@ def run(ctx):
                 d = "(graph inside a %s sub-document) " % wrap + d
         if d:
             violations.append({"signature": "lfp:" + d.split("sub-document) ")[-1].split(" ")[0], "what": d,
-                               "replay": {"order": list(order), "fields": {k: (list(v[0:1]) + [list(v[1])] if v else None) for k, v in fields.items()},
-                                          "present": present, "wrap": wrap}})
+                               "replay": {"order": list(order), "fields": [[k, (list(v[0:1]) + [list(v[1])] if v else None)] for k, v in fields.items()],
+                                          "present": [[k, v] for k, v in present.items()], "wrap": wrap}})
         if sd and len(model_lines) < (20000 if thorough else 1500 * ctx.get('scale', 1)) and rng.random() < 0.2:
             try:
                 model_lines.append(nrun.encode(sd[0], sd[2], sd[1], False, "normalized", "c"))
@@ -195,6 +214,21 @@ def run(ctx):
             order = names[:]
             rng.shuffle(order)
             one(tuple(order), fields, pres, "random_%d" % nf)
+    # field names that are integers (hash(-1) == hash(-2) in CPython: the seen-set must hold the pending tuples, not their hashes)
+    pool_names = [-1, -2, 0, 1, 2, 'a', -3]
+    for _ in range(6000 if thorough else 900 * ctx.get('scale', 1)):
+        names = rng.sample(pool_names, rng.choice([2, 3, 3, 4]))
+        fields = {}
+        for f in names:
+            k = rng.random()
+            if k < 0.1:
+                fields[f] = None
+            else:
+                fields[f] = (rng.choice(['rd', 'rd', 'rd', 'rd', 'rdx', 'rdk']), tuple(rng.sample(names, rng.randrange(0, min(3, len(names) + 1)))))
+        pres = {f: 1 for f in names if fields[f] is None or rng.random() < 0.1}
+        order = list(names)
+        rng.shuffle(order)
+        one(tuple(order), fields, pres, "integer_names_%d" % len(names))
     samples.append({"order": ['b', 'a', 'c'], "fields": {"a": ["rd", ["b"]], "b": ["rd", ["c"]], "c": ["rdx", []]}, "present": {}})
     # model correspondence on a sample of the same graphs
     dis = 0
@@ -216,6 +250,8 @@ def run(ctx):
 
 
 def replay(rp):
-    fields = {k: ((v[0], tuple(v[1])) if v else None) for k, v in rp["fields"].items()}
-    print(check_graph(tuple(rp["order"]), fields, rp["present"], wrap=rp.get("wrap"))[0])
+    items = rp["fields"].items() if isinstance(rp["fields"], dict) else rp["fields"]
+    fields = {k: ((v[0], tuple(v[1])) if v else None) for k, v in items}
+    present = rp["present"] if isinstance(rp["present"], dict) else dict(map(tuple, rp["present"]))
+    print(check_graph(tuple(rp["order"]), fields, present, wrap=rp.get("wrap"))[0])
     return 0
